@@ -43,6 +43,11 @@ func (c compileResult) Verdict() string {
 // (set by C11 for the sets that need it; false everywhere else).
 var compileSkipUnknown bool
 
+// compileFeatureForm, compileAllFeatures: how the enabled features are handed to the compiler (set by C14;
+// 0 = one checker that names the enabled features).
+var compileFeatureForm int
+var compileAllFeatures []string
+
 func compileTexts(texts map[string]string, order []string, feats []string, filter compile.SchemaFilter, wantDump bool) (res compileResult) {
 	if order == nil {
 		for n := range texts {
@@ -68,6 +73,27 @@ func compileTexts(texts map[string]string, order []string, feats []string, filte
 	var fc compile.FeaturesChecker
 	if feats != nil {
 		fc = compile.FeaturesFromNames(true, feats...)
+		if compileFeatureForm != 0 {
+			// the same enabled set, said through a chain of checkers (the last one that knows a feature wins)
+			on := map[string]bool{}
+			for _, f := range feats {
+				on[f] = true
+			}
+			var off []string
+			for _, f := range compileAllFeatures {
+				if !on[f] {
+					off = append(off, f)
+				}
+			}
+			switch compileFeatureForm {
+			case 1:
+				fc = compile.MultiFeatureCheckers(compile.FeaturesFromNames(true, compileAllFeatures...), compile.FeaturesFromNames(false, off...))
+			case 2:
+				fc = compile.MultiFeatureCheckers(compile.FeaturesFromNames(false, compileAllFeatures...), nil, compile.FeaturesFromNames(true, feats...))
+			default:
+				fc = compile.MultiFeatureCheckers(compile.FeaturesFromNames(false, feats...), compile.FeaturesFromNames(true, feats...), compile.FeaturesFromNames(false, off...), compile.FeaturesFromNames(true))
+			}
+		}
 	}
 	var ms schema.ModelSet
 	var err error
